@@ -1,4 +1,59 @@
-(* C09 — placeholder while the lock-order development is being built *)
-From KV Require Import GenAtomic.
-Theorem C09_placeholder : True. Proof. exact I. Qed.
-Print Assumptions C09_placeholder.
+(* C09 — The public API is free of data races, panics and deadlocks under concurrent use.
+   Property theorems only: the deadlock part.  Model: model/LockOrder.v; gen/GenLockPaths.v is
+   regenerated from the engine's exported calls on every run (translator T2b).  Data races and panics
+   are searched for at run time (race detector, recover, watchdog): see the check. *)
+From Coq Require Import List Arith Bool.
+From KV Require Import LockOrder LockOrderProofs GenLockPaths.
+Import ListNotations.
+
+(* Lock-ordering discipline: a thread takes a lock only if it ranks above every lock it holds (hence
+   never one it already holds - Go's RWMutex is not reentrant), releases only what it holds and ends
+   holding nothing.  For ANY number of threads and ANY schedule: a state in which every thread follows
+   the discipline is not a deadlock, every step keeps the discipline, so no reachable state is one. *)
+Theorem C09_lock_ordering_excludes_deadlock :
+  forall B s sched, Disc s -> Bounded B s -> ~ deadlocked (sys_run s sched).
+Proof. exact never_deadlocked. Qed.
+Print Assumptions C09_lock_ordering_excludes_deadlock.
+
+(* a client that issues any sequence of calls each of which follows the discipline follows it too *)
+Theorem C09_clients_compose :
+  forall calls, Forall (fun c => ordered_b [] c = true) calls -> ordered_b [] (concat calls) = true.
+Proof. exact client_follows_discipline. Qed.
+Print Assumptions C09_clients_compose.
+
+(* Every branch-free path of every exported call of the engine (Put, Get, Delete, ListKeys, Fold, Stat,
+   Sync, Merge, Backup, Close, the iterator calls, and a whole batch session NewBatch .. Commit), as
+   extracted from the current source: follows the discipline with ranks DB.mu < Batch.mu < shard lock. *)
+Theorem C09_engine_calls_follow_the_discipline :
+  forallb (ordered_b []) api_paths = true /\
+  forallb (fun p => forallb (fun e => match e with Acq l | Rel l => Nat.ltb (rank l) 4 end) p) api_paths = true /\
+  length api_paths = api_path_count /\ 30 <= api_path_count.
+Proof. vm_compute. repeat split; try reflexivity. repeat constructor. Qed.
+Print Assumptions C09_engine_calls_follow_the_discipline.
+
+(* hence: any number of clients, each issuing any sequence of these calls, never deadlock on the
+   engine's locks, under any schedule *)
+Theorem C09_engine_clients_never_deadlock :
+  forall (clients : list (list (list ev))) sched,
+    (forall calls, In calls clients -> forall c, In c calls -> In c api_paths) ->
+    ~ deadlocked (sys_run (map (fun calls => mkThr [] (concat calls)) clients) sched).
+Proof.
+  intros clients sched Hall. destruct C09_engine_calls_follow_the_discipline as (Hord & Hbound & _).
+  rewrite forallb_forall in Hord, Hbound.
+  apply (never_deadlocked 4).
+  - apply Forall_forall. intros t Ht. apply in_map_iff in Ht. destruct Ht as (calls & <- & Hc). cbn [t_held t_rest].
+    apply client_follows_discipline. apply Forall_forall. intros c Hcc. apply Hord. exact (Hall calls Hc c Hcc).
+  - intros t Ht. apply in_map_iff in Ht. destruct Ht as (calls & <- & Hc). cbn [t_held t_rest]. split; [intros l []|].
+    intros l Hl. apply in_concat in Hl. destruct Hl as (c & Hcc & Hlc).
+    pose proof (Hbound c (Hall calls Hc c Hcc)) as Hb. rewrite forallb_forall in Hb. specialize (Hb _ Hlc). cbn in Hb.
+    apply Nat.ltb_lt. exact Hb.
+Qed.
+Print Assumptions C09_engine_clients_never_deadlock.
+
+(* Non-vacuity: the discipline rejects a call that re-acquires the engine lock (what calling
+   getValueByPosition from inside a batch would do) and a lock-order inversion. *)
+Example c09_rejects :
+  ordered_b [] [Acq (1, 0); Acq (1, 0); Rel (1, 0); Rel (1, 0)] = false /\
+  ordered_b [] [Acq (3, 0); Acq (1, 0); Rel (1, 0); Rel (3, 0)] = false /\
+  ordered_b [] [Acq (1, 0); Acq (3, 0); Rel (3, 0); Rel (1, 0)] = true.
+Proof. vm_compute. repeat split; reflexivity. Qed.
